@@ -144,6 +144,9 @@ uint32_t cop_deserialize_value(const uint8_t *buf, uint32_t buf_size,
         uint32_t count;
         memcpy(&count, buf + pos, 4);
         pos += 4;
+        /* Every element occupies at least one byte: an element count larger than
+         * the rest of the buffer is malformed (and must not size an allocation). */
+        if (count > buf_size - pos) return 0;
         VmArray *arr = vm_array_new(heap, etype, count > 0 ? count : 4);
         for (uint32_t i = 0; i < count; i++) {
             NanoValue elem;
